@@ -261,7 +261,7 @@ def order_spec(F, A, M):
     if len(pgcd(F, A, M)) != 1 or not A:
         return 0
     n = F.q ** (len(M) - 1) - 1
-    if n <= 3000:                     # the definition
+    if n <= 400:                      # the definition
         R, k = A, 1
         while R != [1]:
             R = pmod(F, pmul(F, R, A), M)
@@ -375,7 +375,11 @@ def product(F, facs):
 def stream(rng, n, F=None):
     if F is not None and F.p == 2:
         n *= 6
-    return [rng.bits(63) if rng.chance(3, 4) else rng.below(8) for _ in range(n)]
+    out = []
+    for _ in range(n):
+        v = rng.next()
+        out.append(v >> 1 if v & 3 else (v >> 2) & 7)       # mostly 63-bit values, one in four a small one
+    return out
 
 
 # ------------------------------------------------------------------ the check
